@@ -195,11 +195,64 @@ def evalOp (op : Op α) (ins : List (NDArray α)) : Option (List (OpOut α)) :=
       some ([some dx] ++ (if hasW then [dg] else []) ++ (if hasB then [db] else []))⟩]
   | _, _ => none
 
+/-- dtype of a result: NumPy promotion over the floating operands (integer operands of the
+    catalogue are labels used for indexing only); all-integer inputs keep the first dtype -/
+def resultDType (dts : List DType) : DType :=
+  if dts.contains .f64 then .f64 else if dts.contains .f32 then .f32 else dts.headD .f64
+
 /-- apply an op to tensors of the store -/
 def apply (st : TState α) (op : Op α) (inputs : List Nat) : Option (TState α × List Nat) := do
   let ins ← inputs.mapM (fun i => st.vals[i]?)
   let outs ← evalOp op ins
-  let dt := (inputs.head?.bind (fun i => st.dtypes[i]?)).getD .f64
-  applyOp st inputs dt outs
+  applyOp st inputs (resultDType (inputs.filterMap (fun i => st.dtypes[i]?))) outs
+
+end Synap.Ops
+
+/-! ### Operator forms of `Tensor` with Python scalars (tensor.py `__add__` … `__rtruediv__`)
+
+Every operator is a composition of `add`, `mul`, `pow` on tensors; a Python scalar operand becomes
+a 0-d tensor in the dtype of the tensor it meets (`_scalar_operand`), not requiring grad.  The
+intermediate tensors are real nodes of the graph (they are listed in the result). -/
+namespace Synap.Ops
+open Synap NDArray Api
+
+inductive SOp where
+  | addS | mulS | neg | subT | subS | rsubS | divT | divS | rdivS
+deriving Repr, DecidableEq
+
+variable {α : Type} [Zero α] [One α] [Add α] [Sub α] [Mul α] [Div α] [Neg α] [NatCast α]
+  [OfScientific α] [LT α] [DecidableLT α] [LE α] [DecidableLE α] [Transc α]
+
+def scalarOperand (st : TState α) (v : α) (like : Nat) : Option (TState α × Nat) :=
+  newLeaf st (scalar v) ((st.dtypes[like]?).getD .f64) false
+
+def one1 (r : Option (TState α × List Nat)) : Option (TState α × Nat) :=
+  r.bind (fun (st, ks) => ks.head?.map (fun k => (st, k)))
+
+/-- `a ⊕ b` where `b` is a tensor id (`.inl`) or a Python scalar (`.inr`) -/
+def applySOp (st : TState α) (k : SOp) (a : Nat) (b : Nat ⊕ α) : Option (TState α × Nat) :=
+  match k, b with
+  | .addS, .inr s => do let (st, S) ← scalarOperand st s a; one1 (apply st .add [a, S])
+  | .mulS, .inr s => do let (st, S) ← scalarOperand st s a; one1 (apply st .mul [a, S])
+  | .neg, _ => do let (st, S) ← scalarOperand st (-1) a; one1 (apply st .mul [a, S])
+  | .subT, .inl b => do
+    let (st, S) ← scalarOperand st (-1) b
+    let (st, m) ← one1 (apply st .mul [b, S])
+    one1 (apply st .add [a, m])
+  | .subS, .inr s => do let (st, S) ← scalarOperand st (-s) a; one1 (apply st .add [a, S])
+  | .rsubS, .inr s => do
+    let (st, S1) ← scalarOperand st (-1) a
+    let (st, m) ← one1 (apply st .mul [a, S1])
+    let (st, S) ← scalarOperand st s m
+    one1 (apply st .add [m, S])
+  | .divT, .inl b => do
+    let (st, p) ← one1 (apply st (.pow (-1)) [b])
+    one1 (apply st .mul [a, p])
+  | .divS, .inr s => do let (st, S) ← scalarOperand st (Transc.pow s (-1)) a; one1 (apply st .mul [a, S])
+  | .rdivS, .inr s => do
+    let (st, p) ← one1 (apply st (.pow (-1)) [a])
+    let (st, S) ← scalarOperand st s p
+    one1 (apply st .mul [p, S])
+  | _, _ => none
 
 end Synap.Ops
